@@ -1080,4 +1080,567 @@ theorem shellExecute_spec' (rcEmpty : Int) (text junk : Str) (tables : List (Lis
         obtain ⟨k, drop⟩ := p
         simp only [h2, ← hlen]
 
+/-! ## paths -/
+
+theorem splitSlash_ne_nil (p : Str) : splitSlash p ≠ [] := by
+  induction p with
+  | nil => simp [splitSlash]
+  | cons c cs ih =>
+    simp only [splitSlash]
+    split
+    · simp
+    · split <;> simp
+
+theorem joinSlash_cons_cons (a b : Str) (rest : List Str) :
+    joinSlash (a :: b :: rest) = a ++ SLASH :: joinSlash (b :: rest) := by
+  simp [joinSlash, intercalate_cons_cons]
+
+theorem joinSlash_single (a : Str) : joinSlash [a] = a := by simp [joinSlash, intercalate_single]
+
+theorem joinSlash_nil : joinSlash [] = [] := by simp [joinSlash, List.intercalate]
+
+theorem joinSlash_cons (a : Str) (rest : List Str) (h : rest ≠ []) :
+    joinSlash (a :: rest) = a ++ SLASH :: joinSlash rest := by
+  cases rest with
+  | nil => exact absurd rfl h
+  | cons b r => exact joinSlash_cons_cons a b r
+
+theorem joinSlash_splitSlash (p : Str) : joinSlash (splitSlash p) = p := by
+  induction p with
+  | nil => simp [splitSlash, joinSlash_single]
+  | cons c cs ih =>
+    simp only [splitSlash]
+    split
+    · rename_i hc
+      have : c = SLASH := by simpa using hc
+      subst this
+      rw [joinSlash_cons _ _ (splitSlash_ne_nil cs), ih]; rfl
+    · cases hs : splitSlash cs with
+      | nil => exact absurd hs (splitSlash_ne_nil cs)
+      | cons a rest =>
+        rw [hs] at ih
+        simp only
+        cases rest with
+        | nil => rw [joinSlash_single] at ih ⊢; rw [ih]
+        | cons b r =>
+          rw [joinSlash_cons_cons] at ih ⊢
+          rw [← ih]; rfl
+
+theorem splitSlash_noslash (p : Str) : ∀ c ∈ splitSlash p, SLASH ∉ c := by
+  induction p with
+  | nil => simp [splitSlash]
+  | cons x xs ih =>
+    simp only [splitSlash]
+    split
+    · intro c hc
+      simp only [List.mem_cons] at hc
+      rcases hc with hc | hc
+      · subst hc; simp
+      · exact ih c hc
+    · rename_i hx
+      have hx' : x ≠ SLASH := by simpa using hx
+      cases hs : splitSlash xs with
+      | nil => exact absurd hs (splitSlash_ne_nil xs)
+      | cons a rest =>
+        rw [hs] at ih
+        intro c hc
+        simp only [List.mem_cons] at hc
+        rcases hc with hc | hc
+        · subst hc
+          intro hm
+          simp only [List.mem_cons] at hm
+          rcases hm with hm | hm
+          · exact hx' hm.symm
+          · exact ih a (by simp) hm
+        · exact ih c (by simp [hc])
+
+theorem splitSlash_mem (p : Str) : ∀ c ∈ splitSlash p, ∀ x ∈ c, x ∈ p := by
+  induction p with
+  | nil => simp [splitSlash]
+  | cons y ys ih =>
+    simp only [splitSlash]
+    split
+    · intro c hc x hx
+      simp only [List.mem_cons] at hc
+      rcases hc with hc | hc
+      · subst hc; simp at hx
+      · exact List.mem_cons_of_mem _ (ih c hc x hx)
+    · cases hs : splitSlash ys with
+      | nil => exact absurd hs (splitSlash_ne_nil ys)
+      | cons a rest =>
+        rw [hs] at ih
+        intro c hc x hx
+        simp only [List.mem_cons] at hc
+        rcases hc with hc | hc
+        · subst hc
+          simp only [List.mem_cons] at hx
+          rcases hx with hx | hx
+          · subst hx; simp
+          · exact List.mem_cons_of_mem _ (ih a (by simp) x hx)
+        · exact List.mem_cons_of_mem _ (ih c (by simp [hc]) x hx)
+
+
+theorem scanComp_eq (p junk : Str) (hn : NUL ∉ p) :
+    scanComp (p ++ NUL :: junk) = some (p.dropWhile (· != SLASH) ++ NUL :: junk) := by
+  induction p with
+  | nil => simp [scanComp]
+  | cons c cs ih =>
+    have hc : c ≠ NUL := fun e => hn (by simp [e])
+    have hcs : NUL ∉ cs := fun m => hn (by simp [m])
+    by_cases hs : c = SLASH
+    · subst hs; simp [scanComp, List.dropWhile_cons]
+    · simp [scanComp, List.dropWhile_cons, hc, hs, ih hcs]
+
+theorem skipSlashDots_real (c tail : Str) (hreal : isReal c = true) (hs : SLASH ∉ c) (hn : NUL ∉ c) :
+    skipSlashDots (c ++ tail) = some (c ++ tail) := by
+  cases c with
+  | nil => simp [isReal] at hreal
+  | cons x xs =>
+    have hx : x ≠ SLASH := fun e => hs (by simp [e])
+    have hx' : (x == SLASH) = false := by simpa using hx
+    by_cases hd : x = DOT
+    · subst hd
+      cases xs with
+      | nil => simp [isReal] at hreal
+      | cons y ys =>
+        have hy : y ≠ SLASH := fun e => hs (by simp [e])
+        have hyn : y ≠ NUL := fun e => hn (by simp [e])
+        have hb : (y == SLASH || y == NUL) = false := by simp [hy, hyn]
+        simp +decide [skipSlashDots, isSingleDot, hb]
+    · simp +decide [skipSlashDots, isSingleDot, hx, hd]
+
+theorem skipSlashDots_join (cs : List Str) (junk : Str) (hne : cs ≠ [])
+    (hs : ∀ c ∈ cs, SLASH ∉ c ∧ NUL ∉ c) :
+    skipSlashDots (joinSlash cs ++ NUL :: junk)
+      = some (joinSlash (cs.dropWhile (fun c => !isReal c)) ++ NUL :: junk) := by
+  induction cs with
+  | nil => exact absurd rfl hne
+  | cons c rest ih =>
+    have ⟨hcs, hcn⟩ := hs c (by simp)
+    by_cases hreal : isReal c = true
+    · simp only [List.dropWhile_cons, hreal, Bool.not_true, Bool.false_eq_true, ↓reduceIte]
+      cases rest with
+      | nil => rw [joinSlash_single]; exact skipSlashDots_real c _ hreal hcs hcn
+      | cons d r =>
+        rw [joinSlash_cons_cons, List.append_assoc]
+        exact skipSlashDots_real c _ hreal hcs hcn
+    · have hreal' : isReal c = false := by simpa using hreal
+      simp only [List.dropWhile_cons, hreal', Bool.not_false, ↓reduceIte]
+      have hc : c = [] ∨ c = [DOT] := by
+        cases c with
+        | nil => exact Or.inl rfl
+        | cons x xs =>
+          simp only [isReal, List.isEmpty_cons, Bool.not_false, Bool.true_and, bne_eq_false_iff_eq] at hreal'
+          exact Or.inr hreal'
+      cases rest with
+      | nil =>
+        rw [joinSlash_single]
+        rcases hc with hc | hc <;> subst hc <;>
+          simp +decide [skipSlashDots, isSingleDot, joinSlash_nil]
+      | cons d r =>
+        have ih' := ih (by simp) (fun x hx => hs x (by simp [hx]))
+        rw [joinSlash_cons_cons]
+        rcases hc with hc | hc <;> subst hc <;>
+          simp +decide [skipSlashDots, isSingleDot, ih']
+
+theorem splitSlash_nonul (p : Str) (hn : NUL ∉ p) : ∀ c ∈ splitSlash p, SLASH ∉ c ∧ NUL ∉ c :=
+  fun c hc => ⟨splitSlash_noslash p c hc, fun m => hn (splitSlash_mem p c hc NUL m)⟩
+
+theorem skipSlashDots_eq (p junk : Str) (hn : NUL ∉ p) :
+    skipSlashDots (p ++ NUL :: junk) = some (skipRef p ++ NUL :: junk) := by
+  have := skipSlashDots_join (splitSlash p) junk (splitSlash_ne_nil p) (splitSlash_nonul p hn)
+  rw [joinSlash_splitSlash] at this
+  exact this
+
+
+/-! ### splitSlash ∘ joinSlash -/
+
+theorem splitSlash_noslash_self (c : Str) (hs : SLASH ∉ c) : splitSlash c = [c] := by
+  induction c with
+  | nil => rfl
+  | cons x xs ih =>
+    have hx : (x == SLASH) = false := by
+      have : x ≠ SLASH := fun e => hs (by simp [e])
+      simpa using this
+    simp [splitSlash, hx, ih (fun m => hs (by simp [m]))]
+
+theorem splitSlash_append_slash (c X : Str) (hs : SLASH ∉ c) :
+    splitSlash (c ++ SLASH :: X) = c :: splitSlash X := by
+  induction c with
+  | nil => simp [splitSlash]
+  | cons x xs ih =>
+    have hx : (x == SLASH) = false := by
+      have : x ≠ SLASH := fun e => hs (by simp [e])
+      simpa using this
+    simp [splitSlash, hx, ih (fun m => hs (by simp [m]))]
+
+theorem splitSlash_joinSlash (cs : List Str) (hne : cs ≠ []) (hs : ∀ c ∈ cs, SLASH ∉ c) :
+    splitSlash (joinSlash cs) = cs := by
+  induction cs with
+  | nil => exact absurd rfl hne
+  | cons c rest ih =>
+    cases rest with
+    | nil => rw [joinSlash_single]; exact splitSlash_noslash_self c (hs c (by simp))
+    | cons d r =>
+      rw [joinSlash_cons_cons, splitSlash_append_slash c _ (hs c (by simp)),
+        ih (by simp) (fun x hx => hs x (by simp [hx]))]
+
+/-- `joinSlash` of a tail obtained by dropping leading components is a suffix -/
+theorem joinSlash_dropWhile_suffix (q : Str → Bool) (cs : List Str) :
+    joinSlash (cs.dropWhile q) <:+ joinSlash cs := by
+  induction cs with
+  | nil => exact List.suffix_refl _
+  | cons c rest ih =>
+    simp only [List.dropWhile_cons]
+    split
+    · cases rest with
+      | nil => simp [joinSlash_nil]
+      | cons d r =>
+        rw [joinSlash_cons_cons]
+        refine List.IsSuffix.trans ih ?_
+        exact ⟨c ++ [SLASH], by simp⟩
+    · exact List.suffix_refl _
+
+theorem skipRef_suffix (p : Str) : skipRef p <:+ p := by
+  have := joinSlash_dropWhile_suffix (fun c => !isReal c) (splitSlash p)
+  rw [joinSlash_splitSlash] at this
+  exact this
+
+theorem skipRef_nonul (p : Str) (hn : NUL ∉ p) : NUL ∉ skipRef p :=
+  fun m => hn ((skipRef_suffix p).subset m)
+
+theorem filter_dropWhile_not (q : Str → Bool) (cs : List Str) :
+    (cs.dropWhile (fun c => !q c)).filter q = cs.filter q := by
+  induction cs with
+  | nil => rfl
+  | cons c rest ih =>
+    by_cases h : q c = true
+    · simp [List.dropWhile_cons, h]
+    · have h' : q c = false := by simpa using h
+      simp [List.dropWhile_cons, List.filter_cons, h', ih]
+
+/-- what is left of `p` behind its first piece -/
+theorem dropWhile_ne_slash (p : Str) :
+    p.dropWhile (· != SLASH)
+      = (match (splitSlash p).tail with
+         | [] => []
+         | t => SLASH :: joinSlash t) := by
+  induction p with
+  | nil => simp [splitSlash]
+  | cons x xs ih =>
+    by_cases hx : x = SLASH
+    · subst hx
+      simp only [List.dropWhile_cons, bne_self_eq_false, Bool.false_eq_true, ↓reduceIte, splitSlash,
+        BEq.rfl, List.tail_cons]
+      have := splitSlash_ne_nil xs
+      cases hsx : splitSlash xs with
+      | nil => exact absurd hsx this
+      | cons a r => simp only; rw [← hsx, joinSlash_splitSlash]
+    · have hx' : (x == SLASH) = false := by simpa using hx
+      have hx'' : (x != SLASH) = true := by simp [bne, hx']
+      simp only [List.dropWhile_cons, hx'', ↓reduceIte, splitSlash, hx', Bool.false_eq_true]
+      rw [ih]
+      cases hsx : splitSlash xs with
+      | nil => exact absurd hsx (splitSlash_ne_nil xs)
+      | cons a r => rfl
+
+theorem iterRef_eq_skipRef (p : Str) : iterRef p = skipRef (p.dropWhile (· != SLASH)) := by
+  rw [dropWhile_ne_slash]
+  unfold iterRef skipRef
+  have hns := splitSlash_noslash p
+  cases hsp : splitSlash p with
+  | nil => exact absurd hsp (splitSlash_ne_nil p)
+  | cons h t =>
+    rw [hsp] at hns
+    cases t with
+    | nil => simp [splitSlash, isReal, joinSlash_nil]
+    | cons d r =>
+      simp only [List.tail_cons]
+      have : splitSlash (SLASH :: joinSlash (d :: r)) = [] :: (d :: r) := by
+        simp only [splitSlash, BEq.rfl, ↓reduceIte]
+        rw [splitSlash_joinSlash (d :: r) (by simp) (fun x hx => hns x (by simp [hx]))]
+      rw [this]
+      simp [List.dropWhile_cons, isReal]
+
+theorem iterRef_length_lt (p : Str) (hp : p ≠ []) : (iterRef p).length < p.length := by
+  unfold iterRef
+  have hj := joinSlash_splitSlash p
+  cases hsp : splitSlash p with
+  | nil => exact absurd hsp (splitSlash_ne_nil p)
+  | cons h t =>
+    rw [hsp] at hj
+    simp only [List.tail_cons]
+    cases t with
+    | nil =>
+      simp only [List.dropWhile_nil, joinSlash_nil, List.length_nil]
+      cases p with
+      | nil => exact absurd rfl hp
+      | cons a as => simp
+    | cons d r =>
+      have hs := (joinSlash_dropWhile_suffix (fun c => !isReal c) (d :: r)).length_le
+      rw [joinSlash_cons_cons] at hj
+      rw [← hj]
+      simp only [List.length_append, List.length_cons] at hs ⊢
+      omega
+
+theorem iterRef_suffix (p : Str) : iterRef p <:+ p := by
+  rw [iterRef_eq_skipRef]
+  exact (skipRef_suffix _).trans (List.dropWhile_suffix _)
+
+/-! ### path_next / path_iterate -/
+
+theorem pathNext_eq (p junk : Str) (hn : NUL ∉ p) :
+    pathNext (p ++ NUL :: junk)
+      = some (match skipRef p with
+              | [] => none
+              | c :: r => some (p.length - (c :: r).length, (headComp (c :: r)).length)) := by
+  unfold pathNext
+  simp only [skipSlashDots_eq p junk hn, Option.bind_eq_bind, Option.bind_some, bind]
+  have hnr := skipRef_nonul p hn
+  have hsuf := (skipRef_suffix p).length_le
+  cases hr : skipRef p with
+  | nil => simp
+  | cons c r =>
+    rw [hr] at hnr hsuf
+    have hc : (c == NUL) = false := by
+      have : c ≠ NUL := fun e => hnr (by simp [e])
+      simpa using this
+    have hsc := scanComp_eq (c :: r) junk hnr
+    simp only [List.cons_append] at hsc
+    simp only [List.cons_append, List.head?_cons, Option.bind_some, hc, Bool.false_eq_true, ↓reduceIte, hsc]
+    have hl := @List.takeWhile_append_dropWhile _ (· != SLASH) (c :: r)
+    have hl' : ((c :: r).takeWhile (· != SLASH)).length + ((c :: r).dropWhile (· != SLASH)).length = (c :: r).length := by
+      rw [← List.length_append, hl]
+    simp only [headComp, List.length_append, List.length_cons] at hl' hsuf ⊢
+    congr 3 <;> omega
+
+theorem pathIterate_eq (p junk : Str) (hn : NUL ∉ p) :
+    pathIterate (p ++ NUL :: junk)
+      = some (if p.isEmpty then none else some (iterRef p ++ NUL :: junk)) := by
+  unfold pathIterate
+  cases p with
+  | nil => simp
+  | cons c cs =>
+    have hc : (c == NUL) = false := by
+      have : c ≠ NUL := fun e => hn (by simp [e])
+      simpa using this
+    simp only [List.cons_append, List.head?_cons, Option.bind_eq_bind, Option.bind_some, bind, hc,
+      Bool.false_eq_true, ↓reduceIte, List.isEmpty_cons]
+    by_cases hs : c = SLASH
+    · subst hs
+      have h1 := skipSlashDots_eq (SLASH :: cs) junk hn
+      simp only [List.cons_append] at h1
+      simp only [BEq.rfl, ↓reduceIte, h1, Option.bind_some]
+      rw [iterRef_eq_skipRef]
+      simp [List.dropWhile_cons]
+    · have hs' : (c == SLASH) = false := by simpa using hs
+      have h1 := scanComp_eq (c :: cs) junk hn
+      simp only [List.cons_append] at h1
+      have hn2 : NUL ∉ (c :: cs).dropWhile (· != SLASH) := fun m => hn ((List.dropWhile_suffix _).subset m)
+      simp only [hs', Bool.false_eq_true, ↓reduceIte, h1, Option.bind_some,
+        skipSlashDots_eq _ junk hn2, iterRef_eq_skipRef]
+
+
+theorem takeWhile_all (l : Str) (q : Byte → Bool) (h : ∀ x ∈ l, q x = true) : l.takeWhile q = l := by
+  induction l with
+  | nil => rfl
+  | cons a as ih =>
+    simp [List.takeWhile_cons, h a (by simp), ih (fun x hx => h x (by simp [hx]))]
+
+/-- the component-wise reading of `pathNext_eq` -/
+theorem skipRef_components (p : Str) :
+    match skipRef p with
+    | [] => comps p = []
+    | c :: r => ∃ h t, comps p = h :: t ∧ headComp (c :: r) = h ∧ (c :: r).take h.length = h
+        ∧ comps ((c :: r).drop h.length) = t := by
+  unfold skipRef comps
+  have hns := splitSlash_noslash p
+  rw [← filter_dropWhile_not isReal (splitSlash p)]
+  have hsub : ∀ x ∈ (splitSlash p).dropWhile (fun c => !isReal c), SLASH ∉ x :=
+    fun x hx => hns x ((List.dropWhile_suffix _).subset hx)
+  cases hd : (splitSlash p).dropWhile (fun c => !isReal c) with
+  | nil => simp [joinSlash_nil]
+  | cons h t =>
+    have hreal : isReal h = true := by
+      have := List.head_dropWhile_not (fun c => !isReal c) (l := splitSlash p) (by rw [hd]; simp)
+      simpa [hd] using this
+    rw [hd] at hsub
+    have hhs : SLASH ∉ h := hsub h (by simp)
+    have hne : h ≠ [] := by
+      intro e; subst e; simp [isReal] at hreal
+    cases hj : joinSlash (h :: t) with
+    | nil =>
+      cases t with
+      | nil => rw [joinSlash_single] at hj; exact absurd hj hne
+      | cons d r => rw [joinSlash_cons_cons] at hj; simp at hj
+    | cons c r =>
+      simp only
+      refine ⟨h, t.filter isReal, by simp [List.filter_cons, hreal], ?_, ?_, ?_⟩
+      · rw [← hj]
+        cases t with
+        | nil =>
+          rw [joinSlash_single]
+          unfold headComp
+          exact takeWhile_all h (· != SLASH) (fun x hx => by
+            have : x ≠ SLASH := fun e => hhs (e ▸ hx)
+            simpa using this)
+        | cons d r' =>
+          rw [joinSlash_cons_cons]
+          exact takeWhile_ne_append h _ SLASH hhs
+      · rw [← hj]
+        cases t with
+        | nil => rw [joinSlash_single]; simp
+        | cons d r' => rw [joinSlash_cons_cons]; exact List.take_left' rfl
+      · rw [← hj]
+        cases t with
+        | nil => rw [joinSlash_single]; simp [splitSlash, isReal]
+        | cons d r' =>
+          rw [joinSlash_cons_cons]
+          have : (h ++ SLASH :: joinSlash (d :: r')).drop h.length = SLASH :: joinSlash (d :: r') := by
+            simpa using drop_append_add h (SLASH :: joinSlash (d :: r')) 0
+          rw [this]
+          simp only [splitSlash, BEq.rfl, ↓reduceIte]
+          rw [splitSlash_joinSlash (d :: r') (by simp) (fun x hx => hsub x (by simp [hx]))]
+          simp [List.filter_cons, isReal]
+
+/-! ### path_compare_node -/
+
+theorem compareNode_eq (a ja b jb : Str) (ha : NUL ∉ a) (hb : NUL ∉ b) :
+    compareNode (a ++ NUL :: ja) (b ++ NUL :: jb) = some (lexCmp (headComp a) (headComp b)) := by
+  induction a generalizing b with
+  | nil =>
+    cases b with
+    | nil => simp +decide [compareNode, headComp, lexCmp]
+    | cons cb rb =>
+      have hcb : cb ≠ NUL := fun e => hb (by simp [e])
+      by_cases hs : cb = SLASH
+      · subst hs; simp +decide [compareNode, headComp, lexCmp]
+      · simp +decide [compareNode, headComp, lexCmp, hcb, hs, List.takeWhile_cons]
+  | cons ca ra ih =>
+    have hca : ca ≠ NUL := fun e => ha (by simp [e])
+    have hra : NUL ∉ ra := fun m => ha (by simp [m])
+    by_cases hsa : ca = SLASH
+    · subst hsa
+      cases b with
+      | nil => simp +decide [compareNode, headComp, lexCmp]
+      | cons cb rb =>
+        have hcb : cb ≠ NUL := fun e => hb (by simp [e])
+        by_cases hs : cb = SLASH
+        · subst hs; simp +decide [compareNode, headComp, lexCmp]
+        · simp +decide [compareNode, headComp, lexCmp, hcb, hs, List.takeWhile_cons]
+    · cases b with
+      | nil => simp +decide [compareNode, headComp, lexCmp, hca, hsa, List.takeWhile_cons]
+      | cons cb rb =>
+        have hcb : cb ≠ NUL := fun e => hb (by simp [e])
+        have hrb : NUL ∉ rb := fun m => hb (by simp [m])
+        by_cases hs : cb = SLASH
+        · subst hs; simp +decide [compareNode, headComp, lexCmp, hca, hsa, List.takeWhile_cons]
+        · have := ih rb hra hrb
+          simp only [headComp] at this
+          by_cases he : ca = cb
+          · subst he
+            simp +decide [compareNode, headComp, lexCmp, hca, hsa, List.takeWhile_cons, this]
+          · simp +decide [compareNode, headComp, lexCmp, hca, hsa, hcb, hs, he, List.takeWhile_cons]
+
+theorem lexCmp_eq_zero_iff (x y : Str) : lexCmp x y = 0 ↔ x = y := by
+  induction x generalizing y with
+  | nil => cases y <;> simp [lexCmp]
+  | cons a as ih =>
+    cases y with
+    | nil => simp [lexCmp]
+    | cons b bs =>
+      by_cases h : a = b
+      · subst h; simp [lexCmp, ih]
+      · simp only [lexCmp, beq_iff_eq, h, ↓reduceIte, List.cons.injEq, false_and, iff_false]
+        split <;> simp
+
+
+/-! ### path_remove_prefix -/
+
+theorem removePrefixLoop_eq (f : Nat) (p jp q jq : Str) (hp : NUL ∉ p) (hq : NUL ∉ q) (hf : p.length < f) :
+    removePrefixLoop f (p ++ NUL :: jp) (q ++ NUL :: jq) = some (removePrefixRef f p q ++ NUL :: jp) := by
+  induction f generalizing p q with
+  | zero => omega
+  | succ f ih =>
+    unfold removePrefixLoop removePrefixRef
+    have hcmp := compareNode_eq p jp q jq hp hq
+    cases q with
+    | nil =>
+      cases p with
+      | nil => simp +decide
+      | cons c cs =>
+        have hc : (c == NUL) = false := by
+          have : c ≠ NUL := fun e => hp (by simp [e])
+          simpa using this
+        simp only [List.nil_append, List.cons_append] at hcmp
+        simp +decide only [List.nil_append, List.cons_append, List.head?_cons, Option.bind_eq_bind,
+          Option.bind_some, bind, hc, hcmp, List.isEmpty_nil, List.isEmpty_cons, Bool.or_true, ↓reduceIte,
+          bne, Bool.not_false, Bool.not_true, BEq.rfl, Bool.false_eq_true]
+        split <;> rfl
+    | cons d ds =>
+      have hd : (d == NUL) = false := by
+        have : d ≠ NUL := fun e => hq (by simp [e])
+        simpa using this
+      cases p with
+      | nil =>
+        simp only [List.nil_append, List.cons_append] at hcmp
+        simp +decide only [List.nil_append, List.cons_append, List.head?_cons, Option.bind_eq_bind,
+          Option.bind_some, bind, hd, hcmp, List.isEmpty_nil, List.isEmpty_cons, Bool.true_or, ↓reduceIte,
+          bne, Bool.not_false, Bool.not_true, BEq.rfl, Bool.false_eq_true]
+        split <;> rfl
+      | cons c cs =>
+        have hc : (c == NUL) = false := by
+          have : c ≠ NUL := fun e => hp (by simp [e])
+          simpa using this
+        have hip := pathIterate_eq (c :: cs) jp hp
+        have hiq := pathIterate_eq (d :: ds) jq hq
+        simp only [List.cons_append, List.isEmpty_cons, Bool.false_eq_true, ↓reduceIte] at hcmp hip hiq
+        simp only [List.cons_append, List.head?_cons, Option.bind_eq_bind, Option.bind_some, bind, hc, hd,
+          hcmp, List.isEmpty_cons, Bool.or_self, Bool.false_eq_true, ↓reduceIte, bne, Bool.not_false,
+          Bool.not_true, hip, hiq]
+        by_cases he : headComp (c :: cs) = headComp (d :: ds)
+        · have h0 : lexCmp (headComp (c :: cs)) (headComp (d :: ds)) = 0 := (lexCmp_eq_zero_iff _ _).mpr he
+          have hlt := iterRef_length_lt (c :: cs) (by simp)
+          have hnp : NUL ∉ iterRef (c :: cs) := fun m => hp ((iterRef_suffix _).subset m)
+          have hnq : NUL ∉ iterRef (d :: ds) := fun m => hq ((iterRef_suffix _).subset m)
+          simp only [h0]
+          simp only [he, BEq.rfl, ↓reduceIte]
+          exact ih _ _ hnp hnq (by simp only [List.length_cons] at hf hlt; omega)
+        · have h0 : lexCmp (headComp (c :: cs)) (headComp (d :: ds)) ≠ 0 := fun e => he ((lexCmp_eq_zero_iff _ _).mp e)
+          have h0' : (lexCmp (headComp (c :: cs)) (headComp (d :: ds)) == 0) = false := by simpa using h0
+          have he' : (headComp (c :: cs) == headComp (d :: ds)) = false := by simpa using he
+          simp only [h0', he', Bool.false_eq_true, ↓reduceIte, List.cons_append]
+
+/-- more fuel than the length of `p` changes nothing -/
+theorem removePrefixRef_stable (f g : Nat) (p q : Str) (hf : p.length < f) (hg : p.length < g) :
+    removePrefixRef f p q = removePrefixRef g p q := by
+  induction f generalizing g p q with
+  | zero => omega
+  | succ f ih =>
+    cases g with
+    | zero => omega
+    | succ g =>
+      unfold removePrefixRef
+      split
+      · rfl
+      · rename_i hne
+        split
+        · have hp : p ≠ [] := by
+            intro e; subst e; simp at hne
+          have hlt := iterRef_length_lt p hp
+          exact ih g _ _ (by omega) (by omega)
+        · rfl
+
+
+theorem removePrefixRef_suffix (f : Nat) (p q : Str) : removePrefixRef f p q <:+ p := by
+  induction f generalizing p q with
+  | zero => exact List.suffix_refl _
+  | succ f ih =>
+    unfold removePrefixRef
+    split
+    · exact List.suffix_refl _
+    · split
+      · exact (ih _ _).trans (iterRef_suffix p)
+      · exact List.suffix_refl _
+
 end Igris.C19
